@@ -386,8 +386,17 @@ func init() {
 			used := make([]bool, len(warns))
 			for _, n := range nomatches {
 				hit := false
+				// several methods of one file may leave the same path unmatched (sibling methods): a warning is paired with the
+				// no-match line whose method it names, and only then with any other one of that path
+				pick := -1
 				for i, w := range warns {
-					if used[i] || w.path != n.path {
+					if !used[i] && w.path == n.path && w.file == abs && n.lines[w.line] {
+						pick = i
+						break
+					}
+				}
+				for i, w := range warns {
+					if used[i] || w.path != n.path || (pick >= 0 && i != pick) {
 						continue
 					}
 					used[i], hit = true, true
